@@ -125,28 +125,63 @@ def atom_s(a):
     return str(a)
 
 
+UMAX = ("umax",)
+_USIZE_TAGS = ("L", "cell", "cell@", "arg", "len", "proj", "ret", "phi", "C")
+
+
+def _flatten_min(p):
+    """p == min(a1..ak) + rest  ->  [a1 + rest, .., ak + rest]; otherwise [p]."""
+    mins = [(m, v) for m, v in p.t.items() if len(m) == 1 and isinstance(m[0], tuple) and m[0] and m[0][0] == "min"]
+    if len(mins) == 1 and mins[0][1] == 1 and not any(isinstance(a, tuple) and a and a[0] == "min" for m, v in p.t.items() if m != mins[0][0] for a in m):
+        atom = mins[0][0][0]
+        rest = p - Poly.atom(atom)
+        out = []
+        for a in atom[1:]:
+            out += _flatten_min(a + rest)
+        return out
+    return [p]
+
+
+def _is_usize_quantity(p):
+    """A single usize-valued atom (a length, parameter, loaded field, ...): bounded by usize::MAX."""
+    if len(p.t) != 1:
+        return False
+    (m, v), = p.t.items()
+    return v == 1 and len(m) == 1 and isinstance(m[0], tuple) and m[0] and m[0][0] in _USIZE_TAGS
+
+
 def mk_min(x, y):
-    """Canonical polynomial for min(x, y): arguments are shifted so that no monomial is negative and share no
-    common part, so min(i + n, b) and i + min(n, b - i) normalise to the same form."""
+    """Canonical polynomial for min(x, y).  Nested minima are flattened (min(a, min(b, c)) = min(a, b, c)), usize::MAX is dropped next to
+    a plain usize quantity, arguments are shifted so that no monomial is negative and share no common part, so min(i + n, b),
+    i + min(n, b - i) and min(b, min(i + n, usize::MAX)) all normalise to the same form."""
     x, y = as_poly(x), as_poly(y)
+    args = []
+    for q in _flatten_min(x) + _flatten_min(y):
+        if q not in args:
+            args.append(q)
+    um = Poly.atom(UMAX)
+    if um in args and any(_is_usize_quantity(q) for q in args if q != um):
+        args.remove(um)
+    if len(args) == 1:
+        return args[0]
     shift = {}
-    for m in set(x.t) | set(y.t):
-        need = max(0, -x.t.get(m, 0), -y.t.get(m, 0))
-        if need:
-            shift[m] = need
+    for q in args:
+        for m, v in q.t.items():
+            if v < 0:
+                shift[m] = max(shift.get(m, 0), -v)
     s = Poly(shift)
-    x2, y2 = x + s, y + s
+    args2 = [q + s for q in args]
     common = {}
-    for m in set(x2.t) & set(y2.t):
-        c = min(x2.t[m], y2.t[m])
+    for m in set.intersection(*[set(q.t) for q in args2]):
+        c = min(q.t[m] for q in args2)
         if c > 0:
             common[m] = c
     c = Poly(common)
-    x3, y3 = x2 - c, y2 - c
-    if not x3.t or not y3.t:
-        return c - s  # min(0, nonneg) = 0
-    a, b = sorted([x3, y3], key=lambda q: repr(q.key()))
-    return Poly.atom(("min", a, b)) + c - s
+    args3 = [q - c for q in args2]
+    if any(not q.t for q in args3):
+        return c - s  # min(0, nonneg, ..) = 0
+    args3 = sorted(args3, key=lambda q: repr(q.key()))
+    return Poly.atom(("min",) + tuple(args3)) + c - s
 
 
 def as_poly(x):
@@ -199,9 +234,8 @@ def axioms_for(atoms):
         if not isinstance(a, tuple):
             continue
         if a[0] == "min":
-            x, y = a[1], a[2]
-            out.append((">=", x - Poly.atom(a)))
-            out.append((">=", y - Poly.atom(a)))
+            for x in a[1:]:
+                out.append((">=", x - Poly.atom(a)))
         elif a[0] == "div":  # floor(x / y), y > 0 at the use site (checked by the rule)
             x, y = a[1], a[2]
             q = Poly.atom(a)
@@ -219,6 +253,12 @@ def axioms_for(atoms):
         elif a[0] == "and1":  # x & 1  (with shr1(x): x = 2*shr1 + and1)
             b = Poly.atom(a)
             out.append((">=", Poly.const(1) - b))
+    # usize::MAX bounds every quantity that is itself a usize value: lengths, parameters, loaded fields, slice lengths
+    um = UMAX
+    if um in atoms:
+        for a in atoms:
+            if isinstance(a, tuple) and a and a[0] in _USIZE_TAGS and a != um:
+                out.append((">=", Poly.atom(um) - Poly.atom(a)))
     return out
 
 
@@ -312,7 +352,7 @@ def prove(goal, facts, budget=1500):
     return r
 
 
-def _prove(goal, facts, budget=1500, _split=2):
+def _prove(goal, facts, budget=1500, _split=3):
     if _prove1(goal, facts, budget):
         return True
     # case split on a min atom: min(x, y) = x when x <= y, = y when y <= x (both cases must go through)
@@ -323,15 +363,15 @@ def _prove(goal, facts, budget=1500, _split=2):
     if not mins:
         for _, f in facts:
             mins += [a for a in f.atoms() if isinstance(a, tuple) and a and a[0] == "min"]
-    for a in mins[:2]:
-        x, y = a[1], a[2]
+    for a in mins[:3]:
         ok = True
-        for keep, other in ((x, y), (y, x)):
+        for keep in a[1:]:
+            others = [o for o in a[1:] if o is not keep]
             mp = {a: keep}
             g2 = (rel, p.subst(mp))
-            f2 = [(r, f.subst(mp)) for r, f in facts] + [(">=", other - keep)]
+            f2 = [(r, f.subst(mp)) for r, f in facts] + [(">=", o - keep) for o in others]
             # a case whose hypothesis contradicts the facts holds vacuously
-            if _prove1((">=", keep - other - 1), list(facts), min(budget, 300)):
+            if any(_prove1((">=", keep - o - 1), list(facts), min(budget, 300)) for o in others):
                 continue
             if not _prove(g2, f2, budget, _split - 1):
                 ok = False
@@ -357,23 +397,35 @@ def _prove1(goal, facts, budget=1500):
     atoms |= more
     base_facts = facts
     facts = facts + axioms_for(atoms) + and1_identities(atoms)
+    # q != 0 together with q >= 0 (resp. q <= 0) is q >= 1 (resp. q <= -1) over the integers
+    for r2, f in list(facts):
+        if r2 == "!=" and f.t and not f.is_const():
+            if prove_ge0(f, facts, 2, None, _Budget(120)):
+                facts.append((">=", f - Poly.const(1)))
+            elif prove_ge0(-f, facts, 2, None, _Budget(120)):
+                facts.append((">=", -f - Poly.const(1)))
     # lower bounds of min atoms: min(x, y) >= z whenever x >= z and y >= z (z ranges over the positive monomials of x, y)
     for a in atoms:
         if isinstance(a, tuple) and a and a[0] == "min":
-            x, y = a[1], a[2]
             cands = []
-            for q in (x, y):
+            for q in a[1:]:
                 for m, v in q.t.items():
                     if v > 0 and m:
                         z = Poly({m: 1})
                         if z not in cands:
                             cands.append(z)
             for z in cands:
-                if prove_ge0(x - z, base_facts, 2, None, _Budget(80)) and prove_ge0(y - z, base_facts, 2, None, _Budget(80)):
+                if all(prove_ge0(x - z, base_facts, 2, None, _Budget(80)) for x in a[1:]):
                     facts.append((">=", Poly.atom(a) - z))
     if rel == ">=":
         if prove_ge0(p, facts, _budget=_Budget(budget)):
             return True
+        # q >= 0 and q != 0 give q - 1 >= 0: try each disequality fact q != 0 with p = (+-q) - 1 + (something >= 0)
+        for r2, f in facts:
+            if r2 == "!=":
+                for q in (f, -f):
+                    if prove_ge0(q, facts, _budget=_Budget(min(budget, 200))) and prove_ge0(p - q + Poly.const(1), facts, _budget=_Budget(min(budget, 300))):
+                        return True
         # integer rounding: 2p + 1 >= 0 implies p >= 0 over the integers
         return prove_ge0(p * Poly.const(2) + Poly.const(1), facts, 4, None, _Budget(budget))
     if rel == "==":
